@@ -29,7 +29,7 @@ func runC11(c *Ctx) {
 	p := c.Progs["mod"]
 	c.Rule("C11.E", "encoder/decoder agreement between poll replies and data posts", 7)
 	c.Rule("C11.Q", "messages move only through two FIFO channels with one producer/consumer goroutine", 5)
-	c.Rule("C11.O", "order and completeness on both endpoints", 13)
+	c.Rule("C11.O", "order and completeness on both endpoints", 14)
 	c.Rule("C11.J", "header injection only adds missing keys", 7)
 	const pkg = ModPath + "/agent/websockets"
 
@@ -310,6 +310,41 @@ func runC11(c *Ctx) {
 					}
 				}
 				c.Check("C11.O", "writer:writes-received-message", p, g.Pos(), ok, "the writer writes Type and Data of the very message it received from the queue", "the writer does not write exactly the Type and Data of the message it received")
+				// the writer leaves its loop only for the connection's end, a write error or the close
+				// frame it took from the queue: no other select arm (a closed flag, a timer) lets it
+				// stop with accepted messages still queued, and the close frame travels through the
+				// same queue as the data before it
+				badArm := ""
+				nsel := 0
+				EachInstrRaw(g, func(i ssa.Instruction) {
+					sel, isSel := i.(*ssa.Select)
+					if !isSel {
+						return
+					}
+					queue := false
+					for _, st := range sel.States {
+						if ch, isCh := st.Chan.Type().Underlying().(*types.Chan); isCh && NamedTypeRel(derefT(ch.Elem())) == "agent/websockets.message" && st.Dir == types.RecvOnly {
+							queue = true
+						}
+					}
+					if !queue {
+						return
+					}
+					nsel++
+					for _, st := range sel.States {
+						if ch, isCh := st.Chan.Type().Underlying().(*types.Chan); isCh && NamedTypeRel(derefT(ch.Elem())) == "agent/websockets.message" {
+							continue
+						}
+						if st.Dir == types.RecvOnly && isDoneChan(st.Chan) {
+							continue
+						}
+						badArm = "an arm on " + PathOf(st.Chan) + " at " + p.Pos(sel.Pos())
+					}
+					if !sel.Blocking {
+						badArm = "a default arm at " + p.Pos(sel.Pos())
+					}
+				})
+				c.Check("C11.O", "writer:leaves-only-for-the-connections-end", p, g.Pos(), badArm == "" && nsel >= 1, "the writer's select waits for the queue and the connection context only", "the writer goroutine's select has "+badArm+" besides the queue and the connection context: it can stop (or send a close frame) while messages accepted by SendClientMessage are still queued — they are never written to the server")
 			}
 			if rm := Calls(g, "(*github.com/gorilla/websocket.Conn).ReadMessage"); len(rm) > 0 || len(Calls(g, "(*github.com/gorilla/websocket.Conn).NextReader")) > 0 {
 				ok := len(rm) == 1
